@@ -18,8 +18,8 @@ import (
 type RunOut struct {
 	Index      int
 	Seed       uint64
-	Evals      int             // executions performed by this run (faulted + baseline)
-	Prints     []uint64        // event-log fingerprints of non-trivial executions
+	Evals      int      // executions performed by this run (faulted + baseline)
+	Prints     []uint64 // event-log fingerprints of non-trivial executions
 	Violations []*kit.Violation
 	Stats      kit.Counter
 	Sample     interface{}
@@ -46,7 +46,14 @@ type Check struct {
 	Components   map[string]string
 	Extra        func(cov map[string]interface{}, outs []RunOut)
 	Exhaustive   bool
+	// Custom replaces the generic batch loop (checks that run cases in
+	// supervised worker processes).
+	Custom func(c *Check, tier string) int
 }
+
+// Workers maps a worker sub-command to its body (registered by instrumented-
+// build files).
+var Workers = map[string]func(){}
 
 func workers() int {
 	w := kit.EnvInt("VERIF_WORKERS", runtime.NumCPU())
@@ -58,6 +65,9 @@ func workers() int {
 
 // Batch runs the check and returns the process exit code.
 func (c *Check) Batch(tier string) int {
+	if c.Custom != nil {
+		return c.Custom(c, tier)
+	}
 	start := time.Now()
 	seed := kit.Seed()
 	fmt.Printf("check %s tier=%s VERIF_SEED=%d workers=%d\n", c.Property, tier, seed, workers())
